@@ -21,6 +21,17 @@ WELCOME = """Welcome in this round, because hardly used so far:
   * an interleaving: the order in which results of parallel workers, or of two alternately used objects, arrive.
 NOT welcome any more (used up in earlier rounds): a tolerance (np.isclose / allclose) replacing a comparison; a memoised value gone stale through lru_cache; unpacking a tuple in the wrong order; truthiness of index 0; dtype inherited from an input (zeros_like / float32); np.unique / set dropping multiplicities; `random` vs `np.random` in a forked worker; frozen coordinates (lower == upper); plain operator flips (< vs <=) at a single site; an off-by-one in a single range."""
 
+WELCOME8 = """Welcome in this round, because hardly used so far:
+  * NON-DEFAULT OPTIONS — a constructor or call option that tests and most scripts leave at its default (a different optimiser/scheme name, `proportional_distance=True`, `weighted=True`, `allow_inversion=True`, `fixed_batch_size`, `output_level`, `remove_bounds_minima`, `test_valid`, `max_atoms`, non-default image density / force constants / tolerances, `n_processes`), handled wrongly only when it is set;
+  * UPSTREAM / DOWNSTREAM modules — a slip in a helper OUTSIDE the anchored files that the anchored mechanisms call or whose output they consume (coordinates helpers, minima_properties, graph_properties, potentials' base class, the similarity base class, the network store), which breaks THIS property although that helper looks unrelated;
+  * numerically subtle but legitimate inputs — values spanning many orders of magnitude, energies with a large common offset, nearly (not exactly) degenerate values, long thin boxes, points exactly ON a box face, negative zero, very small step sizes, denormals;
+  * shapes — (n,) vs (n,1) vs (1,n), 0-d arrays where a float is expected, a single row/atom/image/point, empty selections, `squeeze`/`keepdims`/`ravel`/`reshape(-1)` on non-contiguous or 2-d input, integer arrays where floats are expected (integer division, in-place add of floats into an int array);
+  * the same object used for two different problems in turn (two surfaces, two networks, two molecules, two boxes), or two objects of the same class alive at once (class-level vs instance-level state);
+  * exception paths: what is left behind when a legitimate call raises or a component reports failure half-way, and the object is then used again.
+NOT welcome any more (used up in earlier rounds): np.isclose/allclose replacing a comparison; lru_cache; tuple unpacked in the wrong order; truthiness of index 0; zeros_like dtype; np.unique/set dropping multiplicities; `random` vs `np.random` in a worker; lower == upper; a plain operator flip or off-by-one at a single site; moving a lookup before an insertion in test_new_ts; a persistent scratch array/neighbour list on a coordinates object; pool reuse across rounds."""
+if ROUND == "8":
+    WELCOME = WELCOME8
+
 for p in props:
     pid = p["id"]
     if ONLY and pid not in ONLY:
@@ -55,7 +66,7 @@ The property under study (also in {wt}/out/PROPERTY.txt):
 YOUR two changes must be of a DIFFERENT kind from all of these: different functions where at all possible (helpers, constructors, glue between modules, functions the anchored mechanisms call or that prepare their inputs), and a different kind of slip.
 {WELCOME}
 
-Your task: produce TWO different, independent seeded defects to the library under {wt}/src/topsearch, each of which BREAKS this property while (a) still importing/compiling, and (b) still passing the project's entire existing test suite. A "defect" may consist of two cooperating edits (see above) — then ALSO confirm that each of the two edits alone does not make your demo fail, and say so in the meta file. Each should be realistic — the kind of slip a maintainer could make in a refactor, a clean-up or an "optimisation" — and SUBTLE: it must need something specific to manifest, NOT something ordinary use would expose at once. The input that exposes it must be LEGITIMATE: something the unmodified library handles correctly and a user could reasonably do. Prefer small changes (1–8 lines). The two defects should touch different mechanisms.
+Your task: produce TWO different, independent seeded defects to the library under {wt}/src/topsearch, each of which BREAKS this property while (a) still importing/compiling, and (b) still passing the project's entire existing test suite. A defect may consist of two cooperating edits — then ALSO confirm that each of the two edits alone does not make your demo fail, and say so in the meta file. Each should be realistic — the kind of slip a maintainer could make in a refactor, a clean-up or an "optimisation" — and SUBTLE: it must need something specific to manifest, NOT something ordinary use would expose at once. The input that exposes it must be LEGITIMATE: something the unmodified library handles correctly and a user could reasonably do. Prefer small changes (1–8 lines). The two defects should touch different mechanisms.
 
 For EACH defect k ∈ {{1, 2}} deliver in {wt}/out/:
   * patch{{k}}.diff — `git -C {wt} diff` of the change against the worktree's HEAD (only files under src/), made with exactly that change applied and nothing else;
